@@ -103,7 +103,8 @@ class Reset(Contract):
         k = sp["base_currency"].t
         cfg = [Cl("space_threshold", lift_fl(sp["_margin"]).v >= 0)]
         if f["action_space"].cls == "BoxPortfolio":
-            cfg.append(Cl("zero_within_bounds", z3.And(sp["_low"].v <= 0, 0 <= sp["_high"].v)))       # the null action must be in the space
+            nc = c.I.heap[sp["contracts"].oid]["len"]
+            cfg.append(PWI("zero_within_bounds", lambda i: z3.Implies(z3.And(0 <= i, i < nc), z3.And(sp["_low"](i) <= 0, 0 <= sp["_high"](i)))))   # the null action must be in the space
         # configuration (frozen at construction): the property's quantifier on fees, contract specs and reward parameters
         cfg += [x for x in env_invariant(c.I, c.self) if x.name in CONFIG]
         return cfg + [Cl("base_currency_is_the_default_cash", k == CASH_USD),        # reset quotes Cash() at 1/1, nothing else
